@@ -80,6 +80,7 @@ def check(ctx):
     ctx.rule("R7", "int-typed fields (simple, is_async, level, conversion) are computed, not literal, wherever the production admits more than one value", floor=4)
     ctx.rule("R8", "a trailing-comma slot that distinguishes a one-element tuple from a scalar is read by the action", floor=4)
     ctx.rule("R10", "record-valued nonterminals (comprehension clauses, call arguments, yield arguments ...): every field a child can carry is read, or the child handed on whole, on every path on which it can be present", floor=20)
+    ctx.rule("R11", "tokenizer typestate: the backslash-continuation flag of a string never outlives that string on a path without a tokenizer error", floor=1)
     ctx.rule("R9", "the generated LALR table on disk (if present) was generated from the grammar of the working tree", floor=1)
 
     asdl = Asdl()
@@ -287,6 +288,104 @@ def check(ctx):
     from .c01_records import check_records
 
     check_records(ctx, bodies, prods_of)
+
+    # ------------------------------------------------------------------ R11
+    # tokenizer typestate: `needcont` (every further physical line must end in a backslash) belongs to ONE
+    # continued single-quoted string.  Once set it must be cleared before any *other* continuation starts
+    # that does not assign it itself (a triple-quoted string): otherwise an ordinary docstring after a
+    # backslash-continued string is tokenised as an error.  Paths through an ERRORTOKEN / TokenError are
+    # outside "valid programs" and are not followed.
+    tk = ctx.repo.module("xonsh/parsers/tokenize.py")
+    tz = tk.func("_tokenize", raw=True) if "raw" in tk.func.__code__.co_varnames else tk.func("_tokenize")
+    tcfg = CFG(tz)
+    tdefs = df.all_defs(tz)
+
+    def bound_values(n_, name):
+        """values a CFG statement node assigns to ``name`` (tuple assignments unpacked)"""
+        out = []
+        a_ = n_.ast
+        if n_.kind == "stmt" and isinstance(a_, ast.Assign):
+            for t in a_.targets:
+                if isinstance(t, ast.Name) and t.id == name:
+                    out.append(a_.value)
+                elif isinstance(t, ast.Tuple) and isinstance(a_.value, ast.Tuple) and len(t.elts) == len(a_.value.elts):
+                    out += [v for tt, v in zip(t.elts, a_.value.elts) if isinstance(tt, ast.Name) and tt.id == name]
+        return out
+
+    # the flag: a local that is only ever assigned the constants 0/1 (False/True) and is tested in a condition
+    # together with a line-continuation literal; its owner: the text accumulator assigned in the same statement
+    flags = []
+    for n_, ds_ in tdefs.items():
+        vals = [v for node in tcfg.nodes for v in bound_values(node, n_)]
+        if vals and all(isinstance(v, ast.Constant) and v.value in (0, 1, True, False) for v in vals) and any(v.value for v in vals) and any(not v.value for v in vals):
+            flags.append(n_)
+    flags = [f_ for f_ in flags if any(node.kind == "if" and f_ in df.names_read(node.ast.test) and "\\\\" in unparse(node.ast.test) for node in tcfg.nodes)]
+    if len(flags) != 1:
+        raise AnalysisError(f"xonsh/parsers/tokenize.py:_tokenize: continuation flag not identified ({flags})")
+    FLAG = flags[0]
+    set1 = [n_ for n_ in tcfg.nodes if any(isinstance(v, ast.Constant) and v.value for v in bound_values(n_, FLAG))]
+    reset0 = [n_ for n_ in tcfg.nodes if any(isinstance(v, ast.Constant) and not v.value for v in bound_values(n_, FLAG))]
+    owners = set()
+    for n_ in set1:
+        for t in n_.ast.targets:
+            if isinstance(t, ast.Tuple):
+                owners |= {x.id for x in t.elts if isinstance(x, ast.Name) and x.id != FLAG}
+    if len(owners) != 1:
+        raise AnalysisError(f"xonsh/parsers/tokenize.py:_tokenize: the text accumulator set together with `{FLAG}` is not unique ({sorted(owners)})")
+    OWNER = next(iter(owners))
+    starts_other = [n_ for n_ in tcfg.nodes if n_ not in set1 and any(not (isinstance(v, ast.Constant) and v.value == "") and not (isinstance(v, ast.BinOp) and OWNER in df.names_read(v)) for v in bound_values(n_, OWNER))]
+    is_err = lambda n_: n_.ast is not None and n_.kind == "stmt" and (isinstance(n_.ast, ast.Raise) or any(isinstance(y, ast.Yield) and y.value is not None and "ERRORTOKEN" in unparse(y.value) for y in ast.walk(n_.ast)))
+    if not set1 or not reset0 or not starts_other:
+        raise AnalysisError(f"xonsh/parsers/tokenize.py:_tokenize: typestate anchors missing (set={len(set1)} reset={len(reset0)} other-starts={len(starts_other)})")
+    def owner_after(n_, bit):
+        """is the accumulator non-empty after node n_ (given whether it was before)"""
+        for v in bound_values(n_, OWNER):
+            if isinstance(v, ast.Constant) and v.value == "":
+                bit = False
+            elif isinstance(v, ast.BinOp) and OWNER in df.names_read(v):
+                pass  # accumulates: keeps what it had
+            else:
+                bit = True
+        return bit
+
+    for s1 in set1:
+        # reachability over (node, accumulator-non-empty): `if <accumulator>:` is decided by the tracked bit, so
+        # that the path cannot jump over the continued-string branch while a string is being continued
+        start = (s1, True)
+        prev = {start: None}
+        todo = [start]
+        bad = None
+        while todo and bad is None:
+            node, bit = todo.pop()
+            for m_, label in node.succ:
+                if node.kind == "if" and unparse(node.ast.test) == OWNER and ((bit and label == "false") or (not bit and label == "true")):
+                    continue
+                st2 = (m_, owner_after(m_, bit))
+                if st2 in prev:
+                    continue
+                prev[st2] = (node, bit)
+                if m_ in starts_other:
+                    bad = st2
+                    break
+                if m_ in reset0 or is_err(m_):
+                    continue
+                todo.append(st2)
+        path = None
+        if bad is not None:
+            chain, cur = [], bad
+            while cur is not None:
+                chain.append(cur[0])
+                cur = prev[cur]
+            path = tcfg.fmt_path(list(reversed(chain)))
+        ctx.ob(
+            "R11",
+            "xonsh/parsers/tokenize.py:_tokenize",
+            f"after `{short(s1.ast, 50)}` the flag `{FLAG}` is cleared before a continuation starts that does not set it (`{short(starts_other[0].ast, 40)}`): the flag of a finished backslash-continued string must not leak into the next multi-line string",
+            bad is None,
+            key="tokenize|continuation-flag-leaks",
+            where=loc(s1.ast),
+            path=path,
+        )
 
     # ------------------------------------------------------------------ R9
     tbl = "xonsh/parser_table.py"
